@@ -14,6 +14,7 @@ import (
 	"strings"
 	"sync"
 	"time"
+	"verif/harness/netx"
 )
 
 type Step struct {
@@ -49,7 +50,7 @@ type Conn struct {
 	Closed     bool
 	ClosedAt   time.Time
 	PSyncAt    time.Time
-	Replica    bool // the connection sent SYNC/PSYNC
+	Replica    bool          // the connection sent SYNC/PSYNC
 	Done       chan struct{} // closed when the plan has been played
 }
 
@@ -76,7 +77,7 @@ type Source struct {
 
 func New(password string, plans ...Plan) *Source {
 	s := &Source{Password: password, plans: plans}
-	ln, err := net.Listen("tcp", "127.0.0.1:0")
+	ln, err := netx.Listen()
 	if err != nil {
 		panic(err)
 	}
@@ -126,6 +127,22 @@ func (s *Source) Close() {
 	for _, c := range conns {
 		c.c.Close()
 	}
+}
+
+// Retire ends the source's part in a case without releasing its port yet: every open connection is
+// closed, remaining plans are dropped and for d every new connection is accepted and closed at once, so
+// that tool goroutines still trying to reconnect to this address end through their own abort path
+// instead of reaching whichever listener gets the port next. Then the listener is closed.
+func (s *Source) Retire(d time.Duration) {
+	s.mu.Lock()
+	s.plans = nil
+	s.Default = &Plan{Refuse: true}
+	conns := append([]*Conn(nil), s.Conns...)
+	s.mu.Unlock()
+	for _, c := range conns {
+		c.c.Close()
+	}
+	time.AfterFunc(d, s.Close)
 }
 
 func (s *Source) ConnList() []*Conn {
